@@ -21,6 +21,16 @@ def cases(tier, rng):
                 for sc in SCRIPTS:
                     line = "c04 %s %d %d %s" % (cert, ins, must, sc)
                     cs.append({"line": line, "key": line, "tags": {"cert": cert, "ins": ins, "must": must, "script": sc}})
+    # the glue around the modelled decisions (run on the implementation only):
+    # the client command as the CLI builds it (flags -> Command.Startup -> listener) against a server that cannot offer TLS ...
+    for ins in (0, 1):
+        for sec in (0, 1):
+            line = "c04cmd %d %d" % (ins, sec)
+            cs.append({"line": line, "key": line, "model": False, "tags": {"cert": "none", "ins": ins, "must": sec, "script": "command"}})
+    # ... and a TLS upstream object that connects again and again (as after every session loss) must start with a TLS hello each time
+    for kind in ("tcp+tls", "wss"):
+        line = "c04first %s 3" % kind
+        cs.append({"line": line, "key": line, "model": False, "tags": {"cert": "none", "ins": 1, "must": 0, "script": "reconnect-" + kind}})
     return cs
 
 
@@ -30,6 +40,18 @@ def oracle(case, impl):
     if not p or p[0] in ("panic", "died", "timeout", "harness-error") or "hang" in p:
         return [("crash", "scenario did not complete: %s -> %s" % (case["line"], impl[:100]))]
     if p[0] == "startup-err":
+        return [("crash", "scenario could not start: " + case["line"])] if t["script"] == "command" else []
+    if t["script"] == "command":
+        f = dict(zip(p[1::2], p[2::2]))
+        if t["must"] and (f.get("echo") == "1" or f.get("leak") == "1" or f.get("hits") != "0"):
+            return [("required-security-degraded;script=command", "the client was started with --secure (insecure=%d) against a server without TLS, yet application data was carried: %s" % (t["ins"], impl))]
+        if not t["must"] and f.get("echo") != "1":
+            return [("plain-session-refused;script=command", "without --secure the plain session should work: " + impl)]
+        return []
+    if t["script"].startswith("reconnect-"):
+        firsts = p[1:]
+        if any(x != "22" for x in firsts):
+            return [("tls-upstream-connects-in-clear;script=" + t["script"], "a TLS upstream opened a connection that does not start with a TLS hello (first octets %s)" % " ".join(firsts))]
         return []
     f = dict(zip(p[2::2], p[3::2]))
     ok = p[1] == "ok"
@@ -41,7 +63,12 @@ def oracle(case, impl):
     if f.get("secure") == "1" and (f.get("leak") == "1" or f.get("appclear") == "1"):
         out.append(("secure-session-in-clear;script=" + t["script"], "the session reports secure but the payload is visible on the carrier: " + impl))
     if t["cert"] == "good" and ok and f.get("secure") != "1" and not t["script"].startswith("fake"):
-        out.append(("server-offered-starttls;plain-session", "the server offered StartTLS on an unencrypted carrier and completed a plaintext session (script %s)" % t["script"]))
+        if t["script"] in ("strip-cap", "alter-cap", "strip-security"):
+            # the offer (or the client's request) did not get through: the server's choice to go on in plaintext (known finding)
+            out.append(("server-offered-starttls;plain-session", "the server offered StartTLS on an unencrypted carrier and completed a plaintext session (script %s)" % t["script"]))
+        else:
+            # the client did receive a valid offer (in whatever legal spelling of the list) and must take it
+            out.append(("offer-not-taken;script=" + t["script"], "the server's StartTLS offer reached the client (%s) but the session was completed in plaintext: %s" % (t["script"], impl)))
     return out
 
 
